@@ -11,7 +11,7 @@
      shared/src/tag_store.rs   TagStore               (absent = one; set_tag one removes; update_disjunction)
 
    What is modelled at algorithm level: the alive-fact translation with saturating expiry, the
-   split d_old / d_new, the seeding of the tag store (d_old then d_new, u64::MAX skipped), the
+   split d_old / d_new, the seeding of the tag store (largest expiry per triple over d_old and d_new), the
    driver loop, one provenance round with the code's bookkeeping (explicit first delta, then new
    facts ++ improved facts; tags read and updated in place while the round proceeds; new fact ->
    set_tag, otherwise update_disjunction and re-entry of improved *known* facts), the routing of
@@ -295,8 +295,14 @@ Fixpoint old_max (d : list (triple * N)) (f : triple) : option N :=
 Definition d_new_of (d_old d_base : list (triple * N)) : list (triple * N) :=
   filter (fun x : triple * N => match old_max d_old (fst x) with None => true | Some eo => eo <? snd x end) d_base.
 
+(* seed_expiry: a map keyed by triple that keeps the largest expiry over d_old ++ d_new (the same
+   accumulation as d_old_map, hence `old_max`), then set_tag for every entry of the map
+   (set_tag with u64::MAX leaves no explicit tag).  [repo commit "fix: incremental cross-window
+   reasoning seeds a fact with its latest expiry"; before it the tags were set entry by entry, last
+   one winning, u64::MAX skipped - see Boundary.v] *)
 Definition seed_tags (l : list (triple * N)) : tagstore :=
-  fold_left (fun tg (x : triple * N) => if snd x <? INF then set_tag (fst x) (snd x) tg else tg) l [].
+  fold_left (fun tg f => match old_max l f with Some e => set_tag f e tg | None => tg end)
+            (dedup (map fst l)) [].
 
 Definition collect (rt : N -> option N) (F : list triple) (tg : tagstore) : state :=
   flat_map (fun f => match rt (tpred f) with Some c => [(c, f, get_tag tg f)] | None => [] end) F.
